@@ -7,6 +7,9 @@ package main
 // manager, scripted upstreams. Every case enumerated by TLC from Handover.tla (protocol x phase of the current request
 // when StopConnection is called x completed requests x what follows) gets its own listener and connection; one
 // StopConnection() on the old handler (what WaitConnectionsDone does during SIGHUP) starts the hand-over for all of them.
+// The case also says how the listener address is written in the configuration of both instances (127.0.0.1:p, 0.0.0.0:p,
+// [::]:p, [::1]:p) and over which address family the client reaches it: the new instance has to find the listener of a
+// received socket from the socket's local address alone.
 // Nothing touches /home/admin/mosn/conf or a fixed port: pkg/mosn.Start (reconfigure listener) is never called.
 
 import (
@@ -14,6 +17,7 @@ import (
 	"encoding/json"
 	"fmt"
 	"io"
+	"math/rand"
 	"net"
 	"os"
 	"path/filepath"
@@ -43,6 +47,32 @@ type hcase struct {
 	Resp     bool   `json:"resp"`     // the (single) request in flight has its response partly written
 	Follow   string `json:"follow"`   // next | close
 	Order    string `json:"order"`    // fifo | lifo: order in which the upstream answers the requests in flight after the move
+	Bind     string `json:"bind"`     // how the listener address is written: ip4 | any4 | any6 | ip6
+	Via      string `json:"via"`      // the client connects over: ip4 | ip6
+	Release  string `json:"release"`  // when the upstream answers the first request in flight: moved (after the move) | wire (socket on its way)
+}
+
+// hosts as written in a listener address / as dialled by a client, per abstract value of Handover.tla
+var bindHost = map[string]string{"ip4": "127.0.0.1", "any4": "0.0.0.0", "any6": "[::]", "ip6": "[::1]"}
+var viaHost = map[string]string{"ip4": "127.0.0.1", "ip6": "[::1]"}
+
+// handoverAddr returns a listener address written with the given host whose port (below the ephemeral range, in the
+// residue class of the shard, see stableAddr) can be bound that way right now and is not in `taken`.
+func handoverAddr(shard int, host string, taken map[string]bool) string {
+	r := rand.New(rand.NewSource(time.Now().UnixNano() + int64(os.Getpid())*7919))
+	for i := 0; i < 4000; i++ {
+		port := strconv.Itoa(10000 + 32*r.Intn(680) + (shard % 32))
+		if taken[port] {
+			continue
+		}
+		l, err := net.Listen("tcp", host+":"+port)
+		if err == nil {
+			l.Close()
+			return host + ":" + port
+		}
+	}
+	vh.Must(fmt.Errorf("no free port for a listener on %s", host), "hand-over fixture")
+	return ""
 }
 
 // label names the phase of the case (used in signatures).
@@ -62,10 +92,14 @@ func (c hcase) label() string {
 	if len(parts) == 0 {
 		return "idle"
 	}
+	if c.Release == "wire" {
+		parts = append(parts, "wireanswer")
+	}
 	return strings.Join(parts, "+")
 }
 
 const replyWait = 15 * time.Second // a local reply that takes longer than this has failed
+const nomoveWait = 10 * time.Second // a shipped socket the new instance has not taken after this long is not going to be taken
 
 // hoClient is what the hand-over runs need of a client: byte-exact control over what is on the wire and, for the
 // multiplexed protocol, several requests waiting for their answers at once.
@@ -231,11 +265,13 @@ func (m *muxBolt) Close()         { m.c.Close() }
 type hrun struct {
 	c       hcase
 	name    string
-	addr    string
+	addr    string // the listener address as written in the configuration of both instances
+	dial    string // the address the client connects to
 	cl      hoClient
 	keyK    map[int]int // client key of a waiting request -> its number k
 	flight  []*waiting
 	partial *waiting
+	wireTok string // release = wire: the token of the request the upstream answers the moment the socket is shipped
 	raw     net.Conn
 	mu      sync.Mutex
 	evs     []vh.Ev
@@ -257,6 +293,22 @@ func (r *hrun) emit(e vh.Ev) {
 type cmFilter struct{}
 
 func (cmFilter) OnCreated(types.ClusterConfigFactoryCb, types.ClusterHostFactoryCb) {}
+
+// reaches reports whether, on this machine, a listener written with the address form `bind` (opened the way MOSN opens
+// it: net.Listen("tcp", ...)) takes a client that connects over `via`.
+func reaches(bind, via string) bool {
+	l, err := net.Listen("tcp", bindHost[bind]+":0")
+	if err != nil {
+		return false
+	}
+	defer l.Close()
+	c, err := net.DialTimeout("tcp", viaHost[via]+":"+strconv.Itoa(l.Addr().(*net.TCPAddr).Port), time.Second)
+	if err != nil {
+		return false
+	}
+	c.Close()
+	return true
+}
 
 func portOf(addr string) string {
 	if i := strings.LastIndex(addr, ":"); i >= 0 {
@@ -298,9 +350,35 @@ func handoverMain(casesPath, out, res string, shard, shards int) {
 		if err := json.Unmarshal(raw, &c); err != nil {
 			return err
 		}
-		runs = append(runs, &hrun{c: c, name: fmt.Sprintf("ho%d", c.ID), addr: stableAddr(shard), ev: newBus()})
+		if c.Bind == "" {
+			c.Bind, c.Via = "ip4", "ip4"
+		}
+		if c.Release == "" {
+			c.Release = "moved"
+		}
+		if bindHost[c.Bind] == "" || viaHost[c.Via] == "" {
+			return fmt.Errorf("case %d: unknown listener address form %q / client family %q", c.ID, c.Bind, c.Via)
+		}
+		runs = append(runs, &hrun{c: c, name: fmt.Sprintf("ho%d", c.ID), ev: newBus()})
 		return nil
 	}), "cases")
+
+	// combinations this machine cannot produce (no IPv6 loopback, IPv6-only wildcard sockets) are left out and reported
+	reach := map[string]bool{}
+	var unreachable []*hrun
+	kept := runs[:0]
+	for _, r := range runs {
+		key := r.c.Bind + "/" + r.c.Via
+		if _, ok := reach[key]; !ok {
+			reach[key] = reaches(r.c.Bind, r.c.Via)
+		}
+		if reach[key] {
+			kept = append(kept, r)
+		} else {
+			unreachable = append(unreachable, r)
+		}
+	}
+	runs = kept
 
 	clusters, clusterMap := configmanager.ParseClusterConfig(e2e.BuildClusters([]e2e.ClusterSpec{{Name: "uh1", Hosts: []string{hup}}, {Name: "ubolt", Hosts: []string{bup}}}))
 	cm := cluster.NewClusterManagerSingleton(clusters, clusterMap, nil)
@@ -312,12 +390,12 @@ func handoverMain(casesPath, out, res string, shard, shards int) {
 	newSrv := server.NewServer(server.NewConfig(configmanager.ParseServerConfig(&v2.ServerConfig{ServerName: "c11_new"})), cmFilter{}, cm)
 	byPort := map[string]*hrun{}
 	byName := map[string]*hrun{}
-	seen := map[string]bool{}
+	taken := map[string]bool{}
 	for _, r := range runs {
-		for seen[r.addr] {
-			r.addr = stableAddr(shard)
-		}
-		seen[r.addr] = true
+		// one port per run, whatever the address form: the hook events are attributed to their run by the port
+		r.addr = handoverAddr(shard, bindHost[r.c.Bind], taken)
+		taken[portOf(r.addr)] = true
+		r.dial = viaHost[r.c.Via] + ":" + portOf(r.addr)
 		byPort[portOf(r.addr)] = r
 		byName[r.name] = r
 		for _, side := range []string{"old", "new"} {
@@ -390,7 +468,13 @@ func handoverMain(casesPath, out, res string, shard, shards int) {
 				if b, ok := kv[3].(interface{ Len() int }); ok && b != nil {
 					n = b.Len()
 				}
+				if r.wireTok != "" {
+					// this runs inside the old instance's read goroutine, after it has stopped writing to the socket and
+					// before the socket leaves: the answer reaches the old instance while the socket is on its way
+					arr.release(r.wireTok)
+				}
 				r.emit(vh.Ev{"ev": "transfer", "buffered": n})
+				r.ev.post("shipped")
 			}
 		case "conn.transfer.new":
 			if r := byPort[portOf(fmt.Sprint(kv[0]))]; r != nil {
@@ -416,7 +500,7 @@ func handoverMain(casesPath, out, res string, shard, shards int) {
 	network.SetTransferTimeout(200 * time.Millisecond)
 	go oldSrv.Start()
 	for _, r := range runs {
-		vh.Must(e2e.WaitListen(r.addr, 20*time.Second), "listener "+r.name)
+		vh.Must(e2e.WaitListen(r.dial, 20*time.Second), "listener "+r.name+" on "+r.addr+" reached over "+r.dial)
 	}
 
 	// ---- 1. every run is brought to its phase
@@ -427,13 +511,19 @@ func handoverMain(casesPath, out, res string, shard, shards int) {
 		go func() {
 			defer wg.Done()
 			r.t0 = time.Now()
-			r.emit(vh.Ev{"ev": "run", "id": r.c.ID, "proto": r.c.Proto, "phase": r.c.label(), "done": r.c.Done, "follow": r.c.Follow, "case": r.c})
+			r.emit(vh.Ev{"ev": "run", "id": r.c.ID, "proto": r.c.Proto, "phase": r.c.label(), "done": r.c.Done, "follow": r.c.Follow,
+				"bind": r.c.Bind, "via": r.c.Via, "release": r.c.Release, "case": r.c})
 			r.setup(arr, shard)
 		}()
 	}
 	wg.Wait()
 	// ---- 2. the old instance is told to hand its connections over
 	for _, r := range runs {
+		if !r.closed && !r.c.Resp && r.ended() > r.c.Done {
+			// the set-up did not hold: a request that should be waiting for its upstream answer was ended by the proxy
+			// (a machine stalled for seconds breaks the shared upstream connection) before anything was handed over
+			r.abandon("a request in flight was ended by the proxy before the stop")
+		}
 		if !r.closed {
 			r.emit(vh.Ev{"ev": "stop"})
 		}
@@ -465,8 +555,25 @@ func handoverMain(casesPath, out, res string, shard, shards int) {
 		}
 		rs.Put(map[string]interface{}{"id": r.c.ID, "proto": r.c.Proto, "phase": r.c.label(), "abandoned": r.closed})
 	}
+	for _, r := range unreachable {
+		rs.Put(map[string]interface{}{"id": r.c.ID, "proto": r.c.Proto, "phase": r.c.label(), "abandoned": false,
+			"unreachable": r.c.Bind + "/" + r.c.Via})
+	}
 	tr.Close()
 	rs.Close()
+}
+
+// ended counts the requests of the run whose stream the proxy has ended (hook ds.clean).
+func (r *hrun) ended() int {
+	r.mu.Lock()
+	defer r.mu.Unlock()
+	n := 0
+	for _, e := range r.evs {
+		if e["ev"] == "clean" {
+			n++
+		}
+	}
+	return n
 }
 
 func (r *hrun) abandon(why string) {
@@ -569,14 +676,14 @@ func (r *hrun) whole(arr *arrivals, shard int) bool {
 func (r *hrun) setup(arr *arrivals, shard int) {
 	r.keyK = map[int]int{}
 	if r.c.Proto == "bolt" {
-		c, err := newMuxBolt(r.addr)
+		c, err := newMuxBolt(r.dial)
 		if err != nil {
 			r.abandon("dial: " + short(err))
 			return
 		}
 		r.cl = c
 	} else {
-		c, err := newH1(r.addr)
+		c, err := newH1(r.dial)
 		if err != nil {
 			r.abandon("dial: " + short(err))
 			return
@@ -608,6 +715,13 @@ func (r *hrun) setup(arr *arrivals, shard int) {
 		}
 		r.flight = append(r.flight, w)
 	}
+	if r.c.Release == "wire" && !r.c.Resp && len(r.flight) > 0 {
+		first := r.flight[0]
+		if r.c.Order == "lifo" {
+			first = r.flight[len(r.flight)-1]
+		}
+		r.wireTok = first.tok
+	}
 	if r.c.Resp {
 		arr.release(r.flight[0].tok)
 		if err := r.cl.ReadHalf(); err != nil {
@@ -631,8 +745,17 @@ func (r *hrun) after(arr *arrivals, shard int) {
 	bolt := r.c.Proto == "bolt"
 	r.ev.waitAny(20*time.Second, "stopseen")
 	awaitMove := func() {
-		if bolt {
-			r.ev.waitAny(20*time.Second, "moved")
+		if !bolt {
+			return
+		}
+		// the old instance ships the socket when its transfer time is up and then waits for the answer of the new one:
+		// a new instance that finds the listener of the socket says so (hook conn.transfer.new) within milliseconds
+		t0 := time.Now()
+		if r.ev.waitAny(20*time.Second, "shipped", "moved") == "" {
+			return
+		}
+		if r.ev.waitAny(nomoveWait, "moved") == "" {
+			r.emit(vh.Ev{"ev": "h.nomove", "waited_ms": time.Since(t0).Milliseconds()})
 		}
 	}
 	ok := true
